@@ -1103,6 +1103,22 @@ class Rewriter:
 
     # ---- R12: `for (IDX, X) in RECV.iter().enumerate()` whose index only feeds format! arguments (message text)
     #          -> `for X in &RECV`, the index expressions inside the messages replaced by 0usize
+    def drop_log_macros(self, code):
+        """`debug!(..);` / `info!` / `warn!` / `error!` / `trace!` statements (tracing / log) write diagnostics and have no effect on
+        any value: dropped (reported in the evidence)"""
+        n = 0
+        while True:
+            m = mask(code)
+            mm = re.search(r'(?<![A-Za-z0-9_])(?:tracing\s*::\s*|log\s*::\s*)?(?:debug|info|warn|error|trace)\s*!\s*\(', m)
+            if not mm:
+                break
+            cp = match_close(m, mm.end() - 1)
+            tail = re.match(r'\s*;', m[cp + 1:])
+            code = code[:mm.start()] + code[cp + 1 + (tail.end() if tail else 0):]
+            n += 1
+        self.note('tracing/log macro statements dropped (diagnostics only)', n)
+        return code
+
     def drop_debug_only(self, code):
         """`#[cfg(debug_assertions)] { .. }` / `#[cfg(debug_assertions)] stmt;` are diagnostics that release builds do not
         contain: dropped (reported in the evidence)"""
@@ -1329,6 +1345,7 @@ class Rewriter:
     def apply_all(self, code, opts):
         code = self.closure_underscore(code)
         code = self.drop_debug_only(code)
+        code = self.drop_log_macros(code)
         code = self.char_indices_loops(code)
         code = self.enumerate_msg_only(code, force_counter=bool(opts.get('counter')))
         code = self.iter_skip_loops(code)
